@@ -14,6 +14,7 @@ returns an error gave the records `out` (each with the id of the input it came f
                           each tagged with its input id and re-linked to the merged header
 -/
 import Hts.Lemmas.MergerTop
+import Hts.Lemmas.MergerUnique
 namespace Hts.Props.C18
 open Hts.Model.Merger
 
@@ -370,6 +371,39 @@ theorem relinked_sorted_of_monotone (l : LinkFn) (i : Nat) (rs : List Rec)
   rcases hk with hk | ⟨hk, hp⟩
   · exact Or.inl (hrev _ _ hk)
   · exact Or.inr ⟨hinj _ _ hk, hp⟩
+
+/-! ### further facts about the code -/
+
+/-- when merging by a strict weak order the output does not depend on the heap implementation: any two
+heaps satisfying the `Heap` laws give the same records in the same order and the same final error
+(the heap order is total on the heads of distinct inputs, so the minimal head is unique) -/
+theorem merge_heap_independent (H1 H2 : Heap) {less : Less} (hm : newMerger custom linkFn inputs = .ok m)
+    (hl : lessOf custom inputs = some less) (sw : StrictWeak less) : m.readAll H1 = m.readAll H2 := by
+  obtain ⟨n1, hn1, hr1⟩ := readAll_sorted H1 hm hl
+  obtain ⟨n2, hn2, hr2⟩ := readAll_sorted H2 hm hl
+  have hnd := (initHeads_ids (linksOf linkFn inputs) (srcsOf inputs)).nodup (srcsOf_nodup inputs)
+  rw [hr1, hr2, drainS_heap_independent H1 H2 _ less sw n1 _ _ _ (List.Perm.refl _) hnd]
+  rcases Nat.le_total n1 n2 with h | h
+  · exact (drainS_mono H2 _ less n1 n2 _ _ hn1 h).symm
+  · exact drainS_mono H2 _ less n2 n1 _ _ hn2 h
+
+/-- once Read has returned an error it returns the same error, and no record, on every later call -/
+theorem read_after_final (m m' : Merger) (t : Term) (h : m.read H = (.fin t, m')) :
+    m'.read H = (.fin t, m') := read_fin_again H m m' t h
+
+/-- NewMerger fails with io.EOF exactly when there is no input … -/
+theorem newMerger_fails_without_input :
+    newMerger custom linkFn inputs = .error .noSource ↔ inputs = [] := newMerger_noSource custom linkFn inputs
+
+/-- … and with "sort order mismatch" exactly when some input declares another sort order than the first -/
+theorem newMerger_fails_on_mismatch :
+    newMerger custom linkFn inputs = .error .sortOrderMismatch ↔
+      ∃ i0 tl, inputs = i0 :: tl ∧ ∃ inp, inp ∈ inputs ∧ inp.so ≠ i0.so := newMerger_mismatch custom linkFn inputs
+
+/-- for a strict weak order, sortedness is the same as "no record is below its predecessor" (which is
+what the oracle of the check evaluates on the implementation's output) -/
+theorem sorted_iff_neighbours_sorted {α : Type} (lt : α → α → Bool) (sw : StrictWeak lt) (l : List α) :
+    AdjSorted lt l ↔ SortedBy lt l := adjSorted_iff lt sw l
 
 /-! ### non-vacuity -/
 
